@@ -132,8 +132,8 @@ def tdiv(a, b):
         return q if (a < 0) == (b < 0) else -q
     a, b = _symint(a), _symint(b)
     m = max(abs(a.lo), abs(a.hi))
-    if a.lo >= 0 and b.lo > 0:
-        return core._mk(z3.UDiv(a.e, b.e), a.lo // b.hi, a.hi // b.lo)
+    if a.lo >= 0 and b.lo >= 0:
+        return core._mk(z3.UDiv(a.e, b.e), a.lo // max(b.hi, 1), a.hi // max(b.lo, 1))
     return core._mk(a.e / b.e, -m, m)       # bvsdiv: truncating
 
 
@@ -146,8 +146,8 @@ def trem(a, b):
         return r if a >= 0 else -r
     a, b = _symint(a), _symint(b)
     mb = max(abs(b.lo), abs(b.hi))
-    if a.lo >= 0 and b.lo > 0:
-        return core._mk(z3.URem(a.e, b.e), 0, min(a.hi, b.hi - 1))
+    if a.lo >= 0 and b.lo >= 0:
+        return core._mk(z3.URem(a.e, b.e), 0, min(a.hi, max(b.hi, 1) - 1))
     return core._mk(z3.SRem(a.e, b.e), -mb, mb)
 
 
@@ -306,7 +306,9 @@ class Eval:
                 self._flag("overflow", g, ov)
                 self._undef(g, ov)
             r = trem(a, b)
-            self._flag("floordiv", g, sym_and(sym_not(z), r != 0, (a < 0) != (b < 0)))
+            # floor and truncation differ iff the remainder is non-zero and dividend and divisor have opposite
+            # signs; the truncated remainder r carries the sign of the dividend
+            self._flag("floordiv", g, sym_and(sym_not(z), r != 0, (r < 0) != (b < 0)))
             if k == "mod":
                 return r, t
             q = tdiv(a, b)
